@@ -15,4 +15,4 @@ LEVEL_TEXT = ("C12 focus: sorted-map view (membership/value of a ghost probe key
               "one symbolic insert/remove/lookup/foreach(any stop point)/clear on the real code, then the whole result is re-validated. Since every reachable tree is well-formed, "
               "this is invariant preservation for all operation sequences whose trees stay within the bound. Counted as bounded model checking, never as proved. Exception, unbounded: units rot_* verify pp_tree_rb_rotate_left/right and pp_tree_avl_rotate_left/right/left_right/right_left for every window (hanging subtrees of any size with ghost heights, any node above): exact post-shape = in-order sequence preserved, all parent links, root pointer / child slot above, frame; AVL: stored balance factors equal the real height differences afterwards, under the preconditions of the call sites.")
 LEVEL_NOTE = ("Bounded: tree height (see bound per unit in the evidence). Keys are integers under the identity order (every finite total order embeds); comparator user data is passed through "
-              "but not interpreted. The logarithmic-depth corollaries of the AVL/red-black invariants are textbook mathematics, not machine-checked. Trusted: allocator model.")
+              "but not interpreted. Units *_sequence run a three-call history (lookup; insert or remove through any key object; lookup) on one tree object, so that state one operation leaves behind for the next is seen; longer histories are not explored. The logarithmic-depth corollaries of the AVL/red-black invariants are textbook mathematics, not machine-checked. Trusted: allocator model.")
